@@ -99,6 +99,12 @@ impl GcHeader {
         self.ref_count.set(self.ref_count.get() - 1);
     }
 
+    /// Decreases [`GcHeader`]'s ref count by its current non-roots count.
+    pub(crate) fn release_non_roots(&self) {
+        self.ref_count
+            .set(self.ref_count.get() - self.non_root_count());
+    }
+
     /// Check if the gc object is rooted.
     ///
     /// # Note
